@@ -329,7 +329,7 @@ func runC11(c *core.Ctx) {
 	if !quick {
 		maxFields = 7
 	}
-	c.SetRule(fmt.Sprintf("all well-formed messages with <= %d fields after 8/9/35 drawn from a tag universe covering every classifier branch (standard header tags, dictionary-only header/trailer tags, body tags of 1-6 digits, SignatureLength/Signature, XMLDataLen+XMLData with SOH and '=' inside, a dictionary-defined repeating group) x 3 field orders x 5 value rotations x 4 dictionary configurations (none; application; customised transport + application; an application dictionary alone that declares custom header/trailer fields), on dictionaries private to each worker whose field tables must be unchanged afterwards, each parsed into a fresh Message and into a Message that parsed one of two other messages before (a long one with signature, custom trailer field and group; one with separators inside XMLData); plus BodyLength corruptions and all permutations of the three leading fields; independent scanner as oracle", maxFields))
+	c.SetRule(fmt.Sprintf("all well-formed messages with <= %d fields after 8/9/35 drawn from a tag universe covering every classifier branch (standard header tags, dictionary-only header/trailer tags, body tags of 1-6 digits, SignatureLength/Signature, XMLDataLen+XMLData with SOH and '=' inside, a dictionary-defined repeating group) x 3 field orders x 5 value rotations x 4 dictionary configurations (none; application; customised transport + application; an application dictionary alone that declares custom header/trailer fields), on dictionaries private to each worker whose field tables must be unchanged afterwards, each parsed into a fresh Message and into a Message that parsed one of two other messages before (a long one with signature, custom trailer field and group; one with separators inside XMLData); plus every tag 1..2000 (and ten larger ones) alone in the section it belongs to under each configuration; plus BodyLength corruptions and all permutations of the three leading fields; independent scanner as oracle", maxFields))
 	c.Assume("tags are distinct within a message (except repeating-group members)", "dictionary-only header/trailer tags come from a customised copy of FIXT11.xml")
 	hdrTags := []int{49, 56, 34, 52, 50, 115, 1128, custHdr}
 	bodyTags := []int{1, 11, 55, 58, 9999, 123456}
@@ -529,6 +529,41 @@ func runC11(c *core.Ctx) {
 		}
 	}
 	rec(0)
+	// every tag on its own: 1..2000 and a few large ones, once alone in its section and once next to a neighbour of
+	// each other section, under the four dictionary configurations (the classifier tables tag by tag)
+	{
+		var sweep []int
+		for t := 1; t <= 2000; t++ {
+			sweep = append(sweep, t)
+		}
+		sweep = append(sweep, 4999, 5000, 5001, 5050, 9999, 10000, 65535, 65536, 123456, 2147483647)
+		for _, t := range sweep {
+			switch t {
+			case 8, 9, 10, 35, 212, 213, 89, 93, 453, 447, 448:
+				continue // framing fields, the length/data pairs and the group of the universe are covered above
+			}
+			for cfg := 0; cfg < 4; cfg++ {
+				var h, b, tr []fixscan.Field
+				h = []fixscan.Field{{Tag: 49, Value: "A"}, {Tag: 56, Value: "B"}}
+				b = []fixscan.Field{{Tag: 11, Value: "ID"}}
+				switch c11Section(t, cfg) {
+				case 0:
+					h = append(h, fixscan.Field{Tag: t, Value: "V1"})
+				case 1:
+					if t != 11 {
+						b = append(b, fixscan.Field{Tag: t, Value: "V1"})
+					}
+				case 2:
+					tr = append(tr, fixscan.Field{Tag: t, Value: "V1"})
+				}
+				if t == 49 || t == 56 {
+					h = h[:2]
+				}
+				fields := append(append(append([]fixscan.Field{{Tag: 8, Value: "FIXT.1.1"}, {Tag: 35, Value: "D"}}, h...), b...), tr...)
+				jobs <- c11Case{Msg: hex.EncodeToString(fixscan.Build(fields)), Config: cfg, Expect: "ok"}
+			}
+		}
+	}
 	close(jobs)
 	wg.Wait()
 	c.AddEval(evals)
